@@ -70,7 +70,8 @@ func c16eval(cas c16case) *Violation {
 		return nil
 	}
 	inst := t0.In(loc)
-	resetGlobals()
+	caseSeq++
+	resetAlt(caseSeq)
 	fl := slog.LstdFlags &^ (slog.Ldatetimeflags | slog.LlocalTime | slog.Lcaller)
 	if cas.Flags&1 != 0 {
 		fl |= slog.Ldate
@@ -84,7 +85,7 @@ func c16eval(cas c16case) *Violation {
 	if cas.LocalTime {
 		fl |= slog.LlocalTime
 	}
-	slog.SetFlags(fl)
+	setFlagsVia(fl, caseSeq/2)
 	if cas.FlagPath == "scope" {
 		restore := slog.SaveFlagsAndMod(slog.Ldatetimeflags&^(fl&slog.Ldatetimeflags)|slog.LlocalTime&^(fl&slog.LlocalTime), fl&slog.Ldatetimeflags, fl&slog.LlocalTime)
 		restore()
